@@ -515,6 +515,96 @@ def alias_and_size_layer(ck, n_cases):
             ck.fail(f"{name}[:] = 70000 in-range values: {err or 'values read back differ'}", inp)
 
 
+def siblings_and_multi_layer(ck, n_cases):
+    """(1) through a LasData: a bit-packed dimension assigned the (un-copied) view of another bit-packed dimension of the same object - a sibling in
+    the same byte, a field of another byte, itself; (2) several names at once, `obj[[a, b, ...]] = matrix` with one column per name, also when
+    the matrix is square: every named field reads its column, every other bit of the records is as before"""
+    import laspy
+    for ci in range(n_cases):
+        fmt = [1, 6, 3, 7, 0, 8][ci % 6]
+        subs = subfields(fmt)
+        n = ck.rng.choice([2, 3, 5])
+        hdr = laspy.LasHeader(point_format=fmt, version="1.4" if fmt >= 6 else "1.2")
+        las = laspy.LasData(hdr)
+        rec0 = new_record(fmt, n, ck.rng)
+        las.points = laspy.ScaleAwarePointRecord(rec0.array, hdr.point_format, hdr.scales, hdr.offsets)
+        if ci % 2 == 0:
+            # ---- (1)
+            (cs, src, ms), (cd, dst, md) = ck.rng.choice(subs), ck.rng.choice(subs)
+            if ci % 4 == 0:       # a sibling of the same byte, every other time
+                same = [x for x in subs if x[0] == cs]
+                (cd, dst, md) = ck.rng.choice(same)
+            how = ck.rng.choice(["attribute", "item", "points_item"])
+            vals = [int(v) for v in np.array(las[src]).tolist()]
+            mxd = md >> lsb_of(md)
+            before = las.points.array.tobytes()
+            size, off = las.points.array.dtype.itemsize, las.points.array.dtype.fields[cd][1]
+            inp = {"kind": "sibling_view", "fmt": fmt, "src": src, "dst": dst, "how": how, "values": vals, "before": before.hex()[:300]}
+            ck.case(("sibling_view", fmt, src, dst, how, before), nontrivial=True)
+            ck.count("value_is_view_of_sibling" if cs == cd and src != dst else "value_is_view_of_itself" if src == dst else "value_is_view_of_other_byte")
+            try:
+                if how == "attribute":
+                    setattr(las, dst, getattr(las, src))
+                elif how == "item":
+                    las[dst] = las[src]
+                else:
+                    las.points[dst] = las.points[src]
+                err = None
+            except OverflowError:
+                err = "Overflow"
+            except Exception as e:
+                err = "Other:" + type(e).__name__
+            after = las.points.array.tobytes()
+            if all(v <= mxd for v in vals):
+                exp = expected_image(before, size, off, md, list(range(n)), vals)
+                if err is not None:
+                    ck.fail(f"fmt {fmt}: {dst} = (view of) {src} of the same object ({how}), values {vals}: raised {err}", inp)
+                elif after != exp:
+                    got = [(b >> lsb_of(md)) & mxd for b in las.points.array[cd].tolist()]
+                    ck.fail(f"fmt {fmt}: {dst} = (view of) {src} of the same object ({how}): assigned {vals}, {dst} reads {got} (or other bits changed)", inp)
+            elif err != "Overflow":
+                ck.fail(f"fmt {fmt}: {dst} (max {mxd}) = view of {src} holding {vals}: no OverflowError ({err})", inp)
+            elif after != before:
+                ck.fail(f"fmt {fmt}: {dst} = out-of-range view of {src}: OverflowError raised but the records were modified", inp)
+        else:
+            # ---- (2)
+            k = ck.rng.choice([2, 3])
+            names = []
+            for c_, nm, m_ in ck.rng.sample(subs, len(subs)):
+                if len(names) < k:
+                    names.append((c_, nm, m_))
+            n2 = k if ci % 4 == 1 else n          # square every other time
+            rec = new_record(fmt, n2, ck.rng)
+            target = ck.rng.choice(["record", "lasdata"])
+            mat = [[ck.rng.randrange(0, (m_ >> lsb_of(m_)) + 1) for (_, _, m_) in names] for _ in range(n2)]
+            if n2 == k and all(mat[i][j] == mat[j][i] for i in range(k) for j in range(k)):
+                mat[0][k - 1] = (mat[0][k - 1] + 1) % ((names[k - 1][2] >> lsb_of(names[k - 1][2])) + 1)
+            before = rec.array.tobytes()
+            size = rec.array.dtype.itemsize
+            inp = {"kind": "multi_names", "fmt": fmt, "names": [x[1] for x in names], "matrix": mat, "target": target, "before": before.hex()[:300]}
+            ck.case(("multi_names", fmt, tuple(x[1] for x in names), str(mat), target, before), nontrivial=True)
+            ck.count("multi_name_assignment:" + ("square" if n2 == k else "tall"))
+            try:
+                if target == "record":
+                    rec[[x[1] for x in names]] = np.array(mat, dtype=ck.rng.choice(["u1", "i8", "u2"]))
+                    arr = rec.array
+                else:
+                    hdr2 = laspy.LasHeader(point_format=fmt, version="1.4" if fmt >= 6 else "1.2")
+                    l2 = laspy.LasData(hdr2)
+                    l2.points = laspy.ScaleAwarePointRecord(rec.array, hdr2.point_format, hdr2.scales, hdr2.offsets)
+                    l2[[x[1] for x in names]] = np.array(mat, dtype="u1")
+                    arr = l2.points.array
+            except Exception as e:
+                ck.fail(f"fmt {fmt}: obj[{[x[1] for x in names]}] = {mat} ({target}) raised {type(e).__name__}: {e}", inp)
+                continue
+            exp = before
+            for j, (c_, nm, m_) in enumerate(names):
+                exp = expected_image(exp, size, arr.dtype.fields[c_][1], m_, list(range(n2)), [row[j] for row in mat])
+            if arr.tobytes() != exp:
+                got = {nm: [(b >> lsb_of(m_)) & (m_ >> lsb_of(m_)) for b in arr[c_].tolist()] for (c_, nm, m_) in names}
+                ck.fail(f"fmt {fmt}: obj[{[x[1] for x in names]}] = {mat} (one column per name, {target}): the fields read {got} (or other bits changed)", inp)
+
+
 def run(ck):
     ck.rule = ("single-byte layer (exhaustive, both tiers): every point format x every sub-field x all 256 prior bytes x values "
                "-3..max+3 and large magnitudes, through rec[name][:] = v on a real PackedPointRecord with random other bytes; "
@@ -527,6 +617,7 @@ def run(ck):
     single_byte_layer(ck)
     array_layer(ck, 300 if ck.tier == "quick" else 6000)
     alias_and_size_layer(ck, 40 if ck.tier == "quick" else 600)
+    siblings_and_multi_layer(ck, 48 if ck.tier == "quick" else 1200)
     ck.failures.sort(key=lambda f: (f["input"]["kind"] != "single", abs(f["input"].get("value", 0)) if isinstance(f["input"].get("value"), int) else 0))
     if ck.tier == "thorough":
         ck.leanchecker(["LasModel.Props.C09"])
